@@ -14,8 +14,8 @@ from . import common as C
 OCAML = ["fsm"]
 GO = ["fsm", "fsmtable"]
 PROP = "props/C08.v"
-PROOFS = ["proofs/FsmGraph.v", "proofs/FsmStream.v", "proofs/FsmResult.v", "proofs/FsmWalk.v",
-          "model/Fsm.v", "model/FsmRunners.v", "gen/FsmTable.v"]
+PROOFS = ["proofs/FsmBase.v", "proofs/FsmGraph.v", "proofs/FsmStream.v", "proofs/FsmResult.v", "proofs/FsmWalk.v",
+          "proofs/FsmMain.v", "model/Fsm.v", "model/FsmRunners.v", "gen/FsmTable.v", "lib/LTS.v"]
 GEN = os.path.join(C.COQ, "gen", "FsmTable.v")
 ST = ["New", "Booting", "Running", "Reloading", "Stopping", "Stopped", "Error", "Unknown"]
 
@@ -86,23 +86,20 @@ def run_batch(mode, n, seed, shard, extra=()):
 
 
 def reload_racing_return(events):
-    """Shape of the recorded finding: a Reload call is open when the reference subscriber logs Run's
-    Stopped, or is made between that and Run's return."""
-    open_calls, seen_stopped = 0, False
+    """Shape of the recorded finding: Run performed its Stopped transition, and a Reload() called before
+    Run returned then forced Error (the reference history ends ... Stopped, Error[, Error...])."""
+    calls_before_ret = False
     for e in events:
         if e == "1,7":
-            if seen_stopped:
-                return True
-            open_calls += 1
-        elif e == "1,8":
-            open_calls -= 1
-        elif e == "0,4,0,5":
-            if open_calls > 0:
-                return True
-            seen_stopped = True
+            calls_before_ret = True
         elif e.startswith("1,2,"):
-            return False
-    return False
+            break
+    hist = [e for e in events if e.startswith("0,4,0,")]
+    if "0,4,0,5" not in hist:
+        return False
+    k = len(hist) - 1 - hist[::-1].index("0,4,0,5")
+    tail = hist[k + 1:]
+    return calls_before_ret and len(tail) >= 1 and all(t == "0,4,0,6" for t in tail)
 
 
 def case_args(cid):
@@ -196,8 +193,8 @@ def run(run):
         return
     quick = run.tier == "quick"
     shards = 4 if quick else max(4, C.NPROC // 2)
-    plan = [("raw", 150 if quick else 5000), ("composite", 110 if quick else 3000),
-            ("http", 9 if quick else 450), ("cluster", 6 if quick else 260)]
+    plan = [("raw", 500 if quick else 5000), ("composite", 250 if quick else 3000),
+            ("http", 28 if quick else 450), ("cluster", 14 if quick else 260)]
     stats, line_of, mism, samples = {}, {}, [], []
     for mode, n in plan:
         with cf.ThreadPoolExecutor(max_workers=shards) as ex:
